@@ -7,27 +7,30 @@
    (so in particular over the states reached by the histories of Model/History.v, which is where
    the `_refuted` witnesses live).  [md5], [name_ltb] (string order of task names), [cv] (the
    file_dep / calc_dep / task_dep lists in the values a task saved) are oracles.  [icurrent] = the code in /repo (HEAD);
-   [ilegacy] = the code before the two repairs this property led to (a4fdc5e: list / info merge what
-   the calc_dep tasks saved; 33e694f: info reports an ignored task as ignored).  help / dumpdb /
+   [ilegacy] = the code before two of the repairs this property led to (a4fdc5e: list / info merge what
+   the calc_dep tasks saved; 33e694f: info reports an ignored task as ignored); the third repair is in
+   doit/dependency.py and so a flag of Model/Status.v's [ver]: [fixL] ([current] has it, [before_fixL] below does not).  help / dumpdb /
    tabcompletion are tied by the correspondence check only (harness/c20.py): no transition in the model.
    clean --dry-run: Model/Clean.v's command (C14; actions abstracted to their `takes dryrun` flag) and,
    over clean LISTS mixing clean_targets / python callables with and without `dryrun` / shell commands
    with their effect on files, [cclean_cmd] of Model/Introspect.v (C20_clean_action_invoked_iff ...
    C20_clean_cmd_cleaned_is_C14).
 
-   Result: partial.  Proved: the frame (DB untouched up to the documented checker-change
+   Result: Proved: the frame (DB untouched up to the documented checker-change
    invalidation, which never reaches a task carrying the ignore mark (C20_list_status_ignored_after_checker_switch,
    C20_info_ignored_after_checker_switch); no other effect; clean --dry-run: per action of an arbitrary clean list, invoked iff it
    is a python-action taking `dryrun`, independently of its neighbours, no DB record and no file changed); `list --status` = the decision of `run` for every task (calc_dep
    included: both merge the values saved by the calc_dep tasks, those of the calc_dep tasks these values name,
    and so on: the merge is a fix-point that terminates and holds exactly the contributions of the calc_dep
    tasks reachable from the task, C20_merge_terminates / C20_merge_reaches / C20_merge_closed) an `uptodate` key in the
-   values of a calc_dep task is not modelled); `info`'s status line = that decision
-   for ignored tasks, for up-to-date, and in every case when all file dependencies exist; `info`'s
+   values of a calc_dep task is not modelled); `info`'s status line = that decision in EVERY case -- ignored,
+   up-to-date, run, error -- whatever file dependency is missing (C20_info_agrees, C20_info_cmd_agrees,
+   C20_info_cmd_agrees_reachable: the repaired DependencyStatus, fixL of Model/Status.v: the first reason handed to
+   add_reason / set_reason decides the status, as it does where get_log=False stops); `info`'s
    reasons are exactly the true ones and are empty iff the verdict is up-to-date.
-   Still refuted on HEAD (known finding `info-status-differs-missing-file-dep`): `info`'s verdict
-   differs from `run`'s when a file dependency is missing (C20_info_agrees_refuted).  The two
-   repaired defects stay stated on [ilegacy] (`..._legacy_refuted`). *)
+   The three repaired defects stay stated on the code before each repair (`..._legacy_refuted`; the third one,
+   C20_info_agrees_legacy_refuted, was the known finding `info-status-differs-missing-file-dep`: `info`'s verdict
+   differed from `run`'s when a file dependency was missing). *)
 From DoitV Require Import Base Status History StatusP HistoryP Introspect IntrospectP.
 From DoitV Require Runner Clean CleanP.
 Open Scope Z_scope.
@@ -239,7 +242,8 @@ Print Assumptions C20_run_decision_is_select_task.
 (* ------------------------------------------------------------------ info: the verdict *)
 (* `info` (get_log=True) answers up-to-date exactly when get_status(get_log=False) does (StatusP); as long
    as every file dependency exists it answers the same in every case, and that is the decision of
-   `run` for a task that is not ignored *)
+   `run` for a task that is not ignored.  For EVERY version [v] of dependency.py (also before fixL); the full
+   statement for the code in /repo is C20_info_agrees below *)
 Theorem C20_info_agrees_partial : forall (md5 : N -> N) (v : ver) (c : ck) (fs : fsys) (d : db) (t : name) (df : tdef),
   (g_status (get_status md5 v c fs d t df true) = UpToDate <-> g_status (get_status md5 v c fs d t df false) = UpToDate) /\
   ((forall f, In f (file_dep df) -> fs f <> None) ->
@@ -252,7 +256,8 @@ Print Assumptions C20_info_agrees_partial.
 
 (* the status line `info` prints (repaired code) against the decision of `run` on the merged definition:
    ignored iff `run` ignores; up-to-date iff `run` says up-to-date; the same in every case when every
-   file dependency exists *)
+   file dependency exists.  Holds for EVERY version [v] of dependency.py, also before fixL; for the code in /repo the
+   restriction is gone: C20_info_cmd_agrees below *)
 Theorem C20_info_cmd_agrees_partial : forall (md5 : N -> N) (v : ver) (iv : iver) (cv : name -> cvals) (tb : table)
     (n : name) (t : ltask) (c : ck) (fs : fsys) (d : db) (st : istatus) (lines : list iline) (rc : Z) (d' : db),
   fixCalc iv = true -> fixIgn iv = true ->
@@ -265,33 +270,143 @@ Theorem C20_info_cmd_agrees_partial : forall (md5 : N -> N) (v : ver) (iv : iver
 Proof. exact T_info_cmd_agrees_partial. Qed.
 Print Assumptions C20_info_cmd_agrees_partial.
 
-(* ... and NOT when a file dependency is missing (HEAD; known finding).  After a successful run (a
-   state reached by a history): (1) one dependency rewritten, another deleted: `run` reports a
-   dependency error, `info` says "run" (the later `changed_file_dep` overwrites the status set by
-   `missing_file_dep`); (2) a dependency deleted, an uptodate item false: `run` executes the task,
-   `info` says "error" *)
+(* ------------------------------------------------------------------ info: the verdict, repaired code (fixL) *)
+(* get_status of the code in /repo: get_log=True (`info`) answers what get_log=False (`run`, `list --status`)
+   answers -- up-to-date, run or error; NO hypothesis on the files.  The TypeError of Model/Status.v ([Crash]: a
+   state saved by the other checker handed to MD5Checker; an exception, not a status) is the one exception and is
+   stated exactly: get_log=True compares every file dependency where get_log=False stops at the first reason, so
+   it can raise where get_log=False answers (C20_info_typeerror_only_in_log_mode) -- never the other way round --,
+   and neither raises on a well-typed record, i.e. in every state reached by a history (C20_reachable_no_typeerror).
+   For a task that is not ignored that answer is the decision of `run`. *)
+Theorem C20_info_agrees : forall (md5 : N -> N) (c : ck) (fs : fsys) (d : db) (t : name) (df : tdef),
+  let gl := g_status (get_status md5 current c fs d t df true) in
+  let gn := g_status (get_status md5 current c fs d t df false) in
+  (gl <> Crash -> gl = gn) /\
+  (gn = Crash -> gl = Crash) /\
+  (rec_typed (getrec d t) -> gl = gn /\ gl <> Crash) /\
+  (gl <> Crash -> status_is_ignore d t = false -> decision_of_status gl = run_decision md5 current c fs d t df).
+Proof. intros md5 c fs d t df. exact (T_info_agrees md5 current c fs d t df eq_refl). Qed.
+Print Assumptions C20_info_agrees.
+
+(* the same for every code version that has the repair (whatever the other flags) *)
+Theorem C20_info_agrees_fixL : forall (md5 : N -> N) (v : ver) (c : ck) (fs : fsys) (d : db) (t : name) (df : tdef),
+  fixL v = true ->
+  g_status (get_status md5 v c fs d t df true) <> Crash ->
+  g_status (get_status md5 v c fs d t df true) = g_status (get_status md5 v c fs d t df false).
+Proof. exact get_status_modes_agree_fixL. Qed.
+Print Assumptions C20_info_agrees_fixL.
+
+(* in every state reached by a history: unconditionally *)
+Theorem C20_info_agrees_reachable : forall (md5 : N -> N) (size_of : N -> Z) (ops : list op) (t : name) (df : tdef),
+  let s := run md5 size_of current ops in
+  g_status (get_status md5 current (s_ck s) (s_fs s) (s_db s) t df true) =
+  g_status (get_status md5 current (s_ck s) (s_fs s) (s_db s) t df false).
+Proof.
+  intros md5 size_of ops t df. cbv zeta. apply get_status_modes_agree_fixL; [reflexivity|].
+  exact (T_reachable_no_typeerror md5 size_of ops t df true).
+Qed.
+Print Assumptions C20_info_agrees_reachable.
+
+(* the repair is confined to the accumulate-all mode: the decision of `run` / `list --status` (get_log=False) is the
+   same function with and without it, reasons, `changed` list and DB included *)
+Theorem C20_fix_does_not_reach_run : forall (md5 : N -> N) (v : ver) (b : bool) (c : ck) (fs : fsys) (d : db) (t : name) (df : tdef),
+  get_status md5 (with_fixL v b) c fs d t df false = get_status md5 v c fs d t df false.
+Proof. exact get_status_nolog_fixL_irrelevant. Qed.
+Print Assumptions C20_fix_does_not_reach_run.
+
+(* the status line `info` prints (code in /repo) IS the decision of `run` on the merged definition -- ignored,
+   up-to-date, run, error -- whenever `info` answers; no hypothesis on the file system (upgrade of
+   C20_info_cmd_agrees_partial) *)
+Theorem C20_info_cmd_agrees : forall (md5 : N -> N) (iv : iver) (cv : name -> cvals) (tb : table)
+    (n : name) (t : ltask) (c : ck) (fs : fsys) (d : db) (st : istatus) (lines : list iline) (rc : Z) (d' : db),
+  fixCalc iv = true -> fixIgn iv = true ->
+  lookup tb n = Some t ->
+  info_cmd md5 current iv cv tb [n] false c fs d = IOk st lines rc d' ->
+  istatus_decision st = Some (run_decision md5 current c fs d (l_name t) (run_def tb (saved_cv cv d) t)).
+Proof. intros md5 iv cv tb n t c fs d st lines rc d'. exact (T_info_cmd_agrees md5 current iv cv tb n t c fs d st lines rc d' eq_refl). Qed.
+Print Assumptions C20_info_cmd_agrees.
+
+(* the only other outcome of `info T` for a task of the table is the TypeError escaping get_status(get_log=True) ... *)
+Theorem C20_info_cmd_answers : forall (md5 : N -> N) (v : ver) (iv : iver) (cv : name -> cvals) (tb : table)
+    (n : name) (t : ltask) (c : ck) (fs : fsys) (d : db),
+  lookup tb n = Some t ->
+  (exists st lines rc d', info_cmd md5 v iv cv tb [n] false c fs d = IOk st lines rc d') \/
+  (fixIgn iv && status_is_ignore d (l_name t) = false /\
+   g_status (get_status md5 v c fs d (l_name t) (shown_def iv cv tb d t) true) = Crash /\
+   exists d', info_cmd md5 v iv cv tb [n] false c fs d = ICrash d').
+Proof. exact T_info_cmd_answers. Qed.
+Print Assumptions C20_info_cmd_answers.
+
+(* ... which does not exist in states reached by histories: there `info T` always answers, with the decision of `run` *)
+Theorem C20_info_cmd_agrees_reachable : forall (md5 : N -> N) (size_of : N -> Z) (ops : list op) (iv : iver) (cv : name -> cvals) (tb : table)
+    (n : name) (t : ltask),
+  fixCalc iv = true -> fixIgn iv = true ->
+  lookup tb n = Some t ->
+  let s := run md5 size_of current ops in
+  exists st lines rc d',
+    info_cmd md5 current iv cv tb [n] false (s_ck s) (s_fs s) (s_db s) = IOk st lines rc d' /\
+    istatus_decision st = Some (run_decision md5 current (s_ck s) (s_fs s) (s_db s) (l_name t) (run_def tb (saved_cv cv (s_db s)) t)).
+Proof. exact T_info_cmd_agrees_reachable. Qed.
+Print Assumptions C20_info_cmd_agrees_reachable.
+
+(* the exception of C20_info_agrees is real on a DB that no history produces: a record whose 'checker:' says md5
+   and that holds a float for file 0; an uptodate item is false.  get_log=False answers "run" without looking at
+   the file, get_log=True compares it and raises *)
+Definition bad_rec : rec :=
+  {| r_deps := Some [0%N]; r_checker := Some MD5; r_saved := fun f => if N.eqb f 0 then Some (TSstate 5) else None;
+     r_values := []; r_result := None; r_ignore := false |}.
+Theorem C20_info_typeerror_only_in_log_mode :
+  let fs : fsys := fun f => if N.eqb f 0 then Some {| mtime := 1; size := 4; content := 0%N |} else None in
+  let d : db := fun t => if N.eqb t 7 then Some bad_rec else None in
+  let df := {| file_dep := [0%N]; targets := []; uptodate := [UBool false]; act_values := []; act_result := None |} in
+  ~ rec_typed (getrec d 7%N) /\
+  g_status (get_status (fun x => x) current MD5 fs d 7%N df true) = Crash /\
+  g_status (get_status (fun x => x) current MD5 fs d 7%N df false) = Run.
+Proof.
+  cbv zeta. split; [|split; vm_compute; reflexivity].
+  intros H. specialize (H 0%N (TSstate 5) eq_refl). discriminate.
+Qed.
+Print Assumptions C20_info_typeerror_only_in_log_mode.
+
+(* the code before the repair of DependencyStatus (was the known finding `info-status-differs-missing-file-dep`;
+   [before_fixL] = the code in /repo without that commit): `info`'s verdict differed from `run`'s when a file
+   dependency was missing.  After a successful run (a state reached by a history): (1) one dependency rewritten,
+   another deleted: `run` reports a dependency error, `info` said "run" (the later `changed_file_dep` overwrote the
+   status set by `missing_file_dep`); (2) a dependency deleted, an uptodate item false: `run` executes the task,
+   `info` said "error".  In both states the repaired `info` says what `run` does. *)
+Definition before_fixL : ver := {| fixA := true; fixB := true; fixC := true; fixL := false |}.
 Definition nocf : name -> cvals := fun _ => no_cvals.
 Definition i_tab (s : state) : table :=
   [{| l_name := 7%N; l_private := false; l_subtask_of := None; l_task_dep := []; l_calc_dep := []; l_def := s_defs s 7%N |}].
 Definition d01 : tdef := {| file_dep := [0; 1]%N; targets := []; uptodate := []; act_values := []; act_result := None |}.
 Definition d01f : tdef := {| file_dep := [0; 1]%N; targets := []; uptodate := [UBool false]; act_values := []; act_result := None |}.
-Theorem C20_info_agrees_refuted :
+Theorem C20_info_agrees_legacy_refuted :
   (exists ops, fs_fresh ops = true /\
      let s := run (fun x => x) (fun _ => 4) current ops in
-     (exists lines d', info_cmd (fun x => x) current icurrent nocf (i_tab s) [7%N] false (s_ck s) (s_fs s) (s_db s) = IOk (IStatus Run) lines 1 d') /\
-     run_decision (fun x => x) current (s_ck s) (s_fs s) (s_db s) 7%N (s_defs s 7%N) = DError) /\
+     (exists lines d', info_cmd (fun x => x) before_fixL icurrent nocf (i_tab s) [7%N] false (s_ck s) (s_fs s) (s_db s) = IOk (IStatus Run) lines 1 d') /\
+     run_decision (fun x => x) before_fixL (s_ck s) (s_fs s) (s_db s) 7%N (s_defs s 7%N) = DError /\
+     run_decision (fun x => x) current (s_ck s) (s_fs s) (s_db s) 7%N (s_defs s 7%N) = DError /\
+     (exists lines d', info_cmd (fun x => x) current icurrent nocf (i_tab s) [7%N] false (s_ck s) (s_fs s) (s_db s) = IOk (IStatus Error) lines 1 d'
+                       /\ In (IItem KMissingDep 1%N) lines /\ In (IItem KChanged 0%N) lines)) /\
   (exists ops, fs_fresh ops = true /\
      let s := run (fun x => x) (fun _ => 4) current ops in
-     (exists lines d', info_cmd (fun x => x) current icurrent nocf (i_tab s) [7%N] false (s_ck s) (s_fs s) (s_db s) = IOk (IStatus Error) lines 1 d') /\
-     run_decision (fun x => x) current (s_ck s) (s_fs s) (s_db s) 7%N (s_defs s 7%N) = DRun).
+     (exists lines d', info_cmd (fun x => x) before_fixL icurrent nocf (i_tab s) [7%N] false (s_ck s) (s_fs s) (s_db s) = IOk (IStatus Error) lines 1 d') /\
+     run_decision (fun x => x) before_fixL (s_ck s) (s_fs s) (s_db s) 7%N (s_defs s 7%N) = DRun /\
+     run_decision (fun x => x) current (s_ck s) (s_fs s) (s_db s) 7%N (s_defs s 7%N) = DRun /\
+     (exists lines d', info_cmd (fun x => x) current icurrent nocf (i_tab s) [7%N] false (s_ck s) (s_fs s) (s_db s) = IOk (IStatus Run) lines 1 d'
+                       /\ In (IItem KMissingDep 1%N) lines /\ In (IUtdItem 0%nat) lines)).
 Proof.
   split.
   - exists [Write 0 0; Write 1 1; SetDef 7 d01; SaveOk 7; Write 0 3; Delete 1]%N.
-    split; [reflexivity|]. cbv zeta. split; [eexists; eexists; vm_compute; reflexivity | vm_compute; reflexivity].
+    split; [reflexivity|]. cbv zeta. split; [eexists; eexists; vm_compute; reflexivity |].
+    split; [vm_compute; reflexivity|]. split; [vm_compute; reflexivity|].
+    eexists; eexists; split; [vm_compute; reflexivity|]. split; simpl; auto 8.
   - exists [Write 0 0; Write 1 1; SetDef 7 d01f; SaveOk 7; Delete 1]%N.
-    split; [reflexivity|]. cbv zeta. split; [eexists; eexists; vm_compute; reflexivity | vm_compute; reflexivity].
+    split; [reflexivity|]. cbv zeta. split; [eexists; eexists; vm_compute; reflexivity |].
+    split; [vm_compute; reflexivity|]. split; [vm_compute; reflexivity|].
+    eexists; eexists; split; [vm_compute; reflexivity|]. split; simpl; auto 8.
 Qed.
-Print Assumptions C20_info_agrees_refuted.
+Print Assumptions C20_info_agrees_legacy_refuted.
 
 (* the code before 33e694f: `info` never looked at the ignore flag -- for an ignored task it answered
    up-to-date (or run) where `run` and `list --status` say ignored; the repaired code says ignored *)
